@@ -96,7 +96,7 @@ class PowerGate(ComposedGate):
 
         # Identity gate case
         if self.power == 0:
-            utry = UnitaryMatrix.identity(self.dim)
+            utry = UnitaryMatrix.identity(self.dim, self.radixes)
             grad = np.zeros(grad_shape, dtype=np.complex128)
             return utry, grad
 
